@@ -73,6 +73,10 @@ fn unhex(s: &str) -> Vec<u8> {
     };
     (0..b.len() / 2).map(|i| h(b[2 * i]) * 16 + h(b[2 * i + 1])).collect()
 }
+/// bytes as comma-separated decimals (the model's rendering of a byte list)
+fn dec(b: &[u8]) -> String {
+    b.iter().map(|x| x.to_string()).collect::<Vec<_>>().join(",")
+}
 fn hex(b: &[u8]) -> String {
     let mut s = String::with_capacity(b.len() * 2);
     for x in b {
@@ -980,7 +984,8 @@ fn run_transaction(inp: &[u8], brk: i64) -> String {
     let mut s = match &r {
         Ok(p) => guard(format!("{}{}", common(inp, p.parsed().as_ref(), p.remaining()), rec.events()), || {
             let x = p.parsed();
-            let mut s = format!("{} {}{}", common(inp, x.as_ref(), p.remaining()), tx_fields(inp, x), rec.events());
+            let mut s = format!("{} {} txidh={} txidh2={}{}", common(inp, x.as_ref(), p.remaining()), tx_fields(inp, x),
+                dec(&x.txid().to_byte_array()), dec(&x.txid_sha2()), rec.events());
             write!(s, " x_txid={} x_txid_sha2={}", hex(&x.txid().to_byte_array()), hex(&x.txid_sha2())).unwrap();
             let (a, b, c) = x.txid_preimage();
             let inside = |p: &[u8]| p.is_empty() || win(inp, p).0 != OUTSIDE;
@@ -1029,7 +1034,8 @@ fn run_header(inp: &[u8], brk: i64) -> String {
     let mut s = match &r {
         Ok(p) => guard(format!("{}{}", common(inp, p.parsed().as_ref(), p.remaining()), rec.events()), || {
             let x = p.parsed();
-            let mut s = format!("{} {}{}", common(inp, x.as_ref(), p.remaining()), header_fields(inp, x), rec.events());
+            let mut s = format!("{} {} bhash={} bhash2={}{}", common(inp, x.as_ref(), p.remaining()), header_fields(inp, x),
+                dec(&x.block_hash().to_byte_array()), dec(&x.block_hash_sha2()), rec.events());
             write!(s, " x_blockhash={} x_blockhash_sha2={} x_bhpre={}", hex(&x.block_hash().to_byte_array()), hex(&x.block_hash_sha2()), ws(inp, x.block_hash_preimage())).unwrap();
             s
         }),
@@ -1090,7 +1096,8 @@ fn run_block(inp: &[u8], brk: i64) -> String {
     let mut s = match &r {
         Ok(p) => guard(format!("{}{}", common(inp, p.parsed().as_ref(), p.remaining()), rec.events()), || {
             let x = p.parsed();
-            let mut s = format!("{} total={} {}{}", common(inp, x.as_ref(), p.remaining()), x.total_transactions(), header_fields(inp, x.header()), rec.events());
+            let mut s = format!("{} total={} {} bhash={} bhash2={}{}", common(inp, x.as_ref(), p.remaining()), x.total_transactions(), header_fields(inp, x.header()),
+                dec(&x.block_hash().to_byte_array()), dec(&x.block_hash_sha2()), rec.events());
             write!(s, " x_blockhash={} x_blockhash_sha2={}", hex(&x.block_hash().to_byte_array()), hex(&x.block_hash_sha2())).unwrap();
             s
         }),
